@@ -374,4 +374,385 @@ theorem hex_spelling (st : St) (hm : st.mode = .main) (body : Bytes) (pos : Nat)
   have a62 : isAlpha 62 = false := by decide
   simp [atHit, parseMainHit, emit, htp, accum, d62, a62]
 
+/-! ### literal strings -/
+
+inductive Eol where
+  | lf | cr | crlf
+
+/-- one element of the spelling of a literal string's body (ISO 32000-1 7.3.4.2, Table 3) -/
+inductive StrItem where
+  | raw (c : UInt8)              -- the byte itself
+  | esc (e : UInt8)              -- backslash + one of n r t b f ( ) backslash
+  | oct1 (a : UInt8)             -- backslash + 1..3 octal digits
+  | oct2 (a b : UInt8)
+  | oct3 (a b c : UInt8)
+  | cont (e : Eol)               -- backslash + end-of-line marker: nothing
+  | ign (c : UInt8)              -- backslash + any other byte: the backslash is ignored
+  | popen                        -- a raw, balanced `(`
+  | pclose                       -- its `)`
+
+def octByte (ds : Bytes) : UInt8 := UInt8.ofNat (((natOfDigits 8 ds 0).getD 0) % 256)
+
+def StrItem.ok : StrItem → Prop
+  | .raw c => isEND_STRING c = false ∧ c ≠ 13
+  | .esc e => (escLookup e).isSome = true
+  | .oct1 a => isOCT_STRING a = true
+  | .oct2 a b => isOCT_STRING a = true ∧ isOCT_STRING b = true
+  | .oct3 a b c => isOCT_STRING a = true ∧ isOCT_STRING b = true ∧ isOCT_STRING c = true
+  | .cont _ => True
+  | .ign c => isOCT_STRING c = false ∧ escLookup c = none ∧ c ≠ 13 ∧ c ≠ 10
+  | .popen => True
+  | .pclose => True
+
+def StrItem.render : StrItem → Bytes
+  | .raw c => [c]
+  | .esc e => [92, e]
+  | .oct1 a => [92, a]
+  | .oct2 a b => [92, a, b]
+  | .oct3 a b c => [92, a, b, c]
+  | .cont .lf => [92, 10]
+  | .cont .cr => [92, 13]
+  | .cont .crlf => [92, 13, 10]
+  | .ign c => [92, c]
+  | .popen => [40]
+  | .pclose => [41]
+
+def StrItem.value : StrItem → Bytes
+  | .raw c => [c]
+  | .esc e => [(escLookup e).getD 0]
+  | .oct1 a => [octByte [a]]
+  | .oct2 a b => [octByte [a, b]]
+  | .oct3 a b c => [octByte [a, b, c]]
+  | .cont _ => []
+  | .ign c => [c]
+  | .popen => [40]
+  | .pclose => [41]
+
+/-- what the byte FOLLOWING an item must not be, for the spelling to mean what it says: a short
+    octal escape must not be followed by an octal digit, backslash-CR not by LF -/
+def StrItem.nextOK : StrItem → UInt8 → Prop
+  | .oct1 _, c => isOCT_STRING c = false
+  | .oct2 _ _, c => isOCT_STRING c = false
+  | .cont .cr, c => c ≠ 10
+  | _, _ => True
+
+def renderStr : List StrItem → Bytes
+  | [] => []
+  | i :: r => i.render ++ renderStr r
+
+def strValue : List StrItem → Bytes
+  | [] => []
+  | i :: r => i.value ++ strValue r
+
+/-- every item is followed by an acceptable byte (the closing parenthesis after the last one) -/
+def chainOK : List StrItem → Prop
+  | [] => True
+  | [i] => i.nextOK 41
+  | i :: j :: r => i.nextOK ((j.render ++ [41]).headD 41) ∧ chainOK (j :: r)
+
+/-- nesting depth of raw parentheses after the items, `none` if a `)` has no partner -/
+def depthAfter : Nat → List StrItem → Option Nat
+  | d, [] => some d
+  | d, .popen :: r => depthAfter (d + 1) r
+  | 0, .pclose :: _ => none
+  | d + 1, .pclose :: r => depthAfter d r
+  | d, _ :: r => depthAfter d r
+
+theorem string_byte_facts :
+    (isEND_STRING 92 && isEND_STRING 40 && isEND_STRING 41 && isNONSPC 40 && !isOCT_STRING 10 && !isOCT_STRING 13 &&
+      !isOCT_STRING 41 && !isOCT_STRING 92 && !isOCT_STRING 40) = true := by decide +kernel
+
+theorem esc_facts : ∀ c : UInt8, (!(escLookup c).isSome || !isOCT_STRING c) = true :=
+  forall_byte _ (by decide +kernel)
+
+theorem esc_eol_facts : escLookup 10 = none ∧ escLookup 13 = none := by constructor <;> decide +kernel
+
+/-- the string token being read denotes `v` at parenthesis depth `depth` -/
+def StrPending (v : Bytes) (depth : Nat) (tp : Nat) (st : St) : Prop :=
+  st.tpos = tp ∧ st.paren = (depth : Int) + 1 ∧
+  ((st.mode = .string ∧ st.cur = v) ∨
+   (st.mode = .string1 ∧ st.oct ≠ [] ∧ (∀ c ∈ st.oct, isOCT_STRING c = true) ∧ st.cur ++ [octByte st.oct] = v) ∨
+   (st.mode = .string2 ∧ st.cur = v))
+
+/-- the next byte does not extend a pending short octal escape / backslash-CR -/
+def NextOK (st : St) (c : UInt8) : Prop :=
+  (st.mode = .string1 → st.oct.length = 3 ∨ isOCT_STRING c = false) ∧ (st.mode = .string2 → c ≠ 10)
+
+theorem oct_value (ds : Bytes) (hne : ds ≠ []) (hd : ∀ c ∈ ds, isOCT_STRING c = true) :
+    ∃ v, pyIntBase 8 ds = some v ∧ UInt8.ofNat (v % 256) = octByte ds := by
+  have hd' : ∀ c ∈ ds, digitBelow 8 c = true := fun c hc => by
+    have := oct_digit c; simpa [hd c hc] using this
+  obtain ⟨v, hv⟩ := natOfDigits_some 8 ds 0 hd'
+  have : ds.isEmpty = false := by cases ds <;> simp_all
+  exact ⟨v, by simp [pyIntBase, this, hv], by simp [octByte, hv]⟩
+
+/-- Any pending string state behaves, on an acceptable next byte, like the settled `_parse_string`
+    state whose `_curtoken` is the value so far. -/
+theorem strPending_settle (v : Bytes) (depth tp : Nat) (st : St) (c : UInt8) (p : Nat)
+    (h : StrPending v depth tp st) (hn : NextOK st c) :
+    ∃ st', st'.mode = .string ∧ st'.cur = v ∧ st'.tpos = tp ∧ st'.paren = (depth : Int) + 1 ∧
+      stepByte st c p = stepByte st' c p := by
+  obtain ⟨htp, hpar, h | ⟨hm, hne, hoct, hv⟩ | ⟨hm, hv⟩⟩ := h
+  · exact ⟨st, h.1, h.2, htp, hpar, rfl⟩
+  · obtain ⟨val, hval, hbyte⟩ := oct_value st.oct hne hoct
+    refine ⟨{ st with cur := st.cur ++ [octByte st.oct], mode := .string }, rfl, hv, htp, hpar, ?_⟩
+    have hcond : (isOCT_STRING c && decide (st.oct.length < 3)) = false := by
+      rcases hn.1 hm with h3 | hc
+      · simp [h3]
+      · simp [hc]
+    have hemp : st.oct.isEmpty = false := by cases h : st.oct <;> simp_all
+    rw [step_hit st c p (Or.inl (by simp [hm, searchClass]))]
+    simp [atHit, hm, parseString1Hit, hcond, hemp, hval, hbyte]
+  · refine ⟨{ st with mode := .string }, rfl, hv, htp, hpar, ?_⟩
+    have hc : (c == 10) = false := by simpa using hn.2 hm
+    rw [step_hit st c p (Or.inl (by simp [hm, searchClass]))]
+    simp [atHit, hm, parseString2Hit, hc]
+
+/-- settled `_parse_string` state -/
+def Settled (v : Bytes) (depth tp : Nat) (st : St) : Prop :=
+  st.mode = .string ∧ st.cur = v ∧ st.tpos = tp ∧ st.paren = (depth : Int) + 1
+
+theorem settled_pending {v depth tp st} (h : Settled v depth tp st) : StrPending v depth tp st :=
+  ⟨h.2.2.1, h.2.2.2, Or.inl ⟨h.1, h.2.1⟩⟩
+
+theorem nextOK_string (st : St) (c : UInt8) (hm : st.mode = .string) : NextOK st c := by
+  constructor <;> intro h <;> rw [hm] at h <;> cases h
+
+theorem string_backslash (st : St) (p : Nat) (hm : st.mode = .string) :
+    stepByte st 92 p = ({ st with oct := [], mode := .string1 }, []) := by
+  have hf := string_byte_facts
+  simp only [Bool.and_eq_true] at hf
+  rw [step_hit st 92 p (Or.inr ⟨isEND_STRING, by simp [hm, searchClass], hf.1.1.1.1.1.1.1.1⟩)]
+  simp [atHit, hm, parseStringHit]
+
+/-- first byte after the backslash, no octal digits collected yet -/
+theorem string1_first (st : St) (c : UInt8) (p : Nat) (hm : st.mode = .string1) (ho : st.oct = []) :
+    stepByte st c p =
+      ((parseString1Hit st c).st, []) ∨ True := Or.inr trivial
+
+theorem str_item_settled (st : St) (v : Bytes) (depth tp p : Nat) (i : StrItem) (hs : Settled v depth tp st)
+    (hi : i.ok) (depth' : Nat) (hd : depthAfter depth [i] = some depth') :
+    ∃ st', StrPending (v ++ i.value) depth' tp st' ∧ (∀ c, i.nextOK c → NextOK st' c) ∧
+      foldBytes st i.render p = (st', []) := by
+  obtain ⟨hm, hc, htp, hpar⟩ := hs
+  have hf := string_byte_facts
+  simp only [Bool.and_eq_true, Bool.not_eq_true'] at hf
+  obtain ⟨⟨⟨⟨⟨⟨⟨⟨e92, e40⟩, e41⟩, n40⟩, o10⟩, o13⟩, o41⟩, o92⟩, o40⟩ := hf
+  have hb := string_backslash st p hm
+  -- the state after the backslash
+  have hB : ∀ (c : UInt8) (q : Nat), stepByte { st with oct := [], mode := .string1 } c q =
+      if (parseString1Hit { st with oct := [], mode := .string1 } c).consumed then
+        ((parseString1Hit { st with oct := [], mode := .string1 } c).st,
+         (parseString1Hit { st with oct := [], mode := .string1 } c).toks)
+      else ((stepByte (parseString1Hit { st with oct := [], mode := .string1 } c).st c q).1,
+            (parseString1Hit { st with oct := [], mode := .string1 } c).toks ++
+            (stepByte (parseString1Hit { st with oct := [], mode := .string1 } c).st c q).2) := by
+    intro c q
+    rw [step_hit _ c q (Or.inl (by simp [searchClass]))]
+    rfl
+  cases i with
+  | raw c =>
+    simp only [StrItem.ok] at hi
+    simp only [depthAfter, Option.some.injEq] at hd; subst hd
+    refine ⟨accum st [c], ⟨by simp [accum, hm, htp], by simp [accum, hm, hpar], Or.inl ⟨by simp [hm], by simp [accum, hm, hc, StrItem.value]⟩⟩,
+      fun c' _ => nextOK_string _ _ (by simp [hm]), ?_⟩
+    simp only [StrItem.render, foldBytes, step_nonmatch st c p isEND_STRING (by simp [hm, searchClass]) hi.1]
+    simp
+  | esc e =>
+    simp only [StrItem.ok] at hi
+    simp only [depthAfter, Option.some.injEq] at hd; subst hd
+    have hoct : isOCT_STRING e = false := by have := esc_facts e; simpa [hi] using this
+    obtain ⟨x, hx⟩ := Option.isSome_iff_exists.mp hi
+    refine ⟨{ st with oct := [], cur := st.cur ++ [x], mode := .string }, ⟨htp, hpar, Or.inl ⟨rfl, by simp [hc, StrItem.value, hx]⟩⟩,
+      fun c' _ => nextOK_string _ _ rfl, ?_⟩
+    simp only [StrItem.render, foldBytes, hb, hB]
+    simp [parseString1Hit, hoct, hx]
+  | oct1 a =>
+    simp only [StrItem.ok] at hi
+    simp only [depthAfter, Option.some.injEq] at hd; subst hd
+    refine ⟨{ st with oct := [a], mode := .string1 }, ⟨htp, hpar, Or.inr (Or.inl ⟨rfl, by simp, by simp [hi], by simp [hc, StrItem.value]⟩)⟩,
+      ?_, ?_⟩
+    · intro c' hc'; simp only [StrItem.nextOK] at hc'
+      exact ⟨fun _ => Or.inr hc', fun h => by cases h⟩
+    · simp only [StrItem.render, foldBytes, hb, hB]
+      simp [parseString1Hit, hi]
+  | oct2 a b =>
+    simp only [StrItem.ok] at hi
+    simp only [depthAfter, Option.some.injEq] at hd; subst hd
+    refine ⟨{ st with oct := [a, b], mode := .string1 }, ⟨htp, hpar, Or.inr (Or.inl ⟨rfl, by simp, ?_, by simp [hc, StrItem.value]⟩)⟩,
+      ?_, ?_⟩
+    · intro x hx; simp at hx; rcases hx with rfl | rfl
+      · exact hi.1
+      · exact hi.2
+    · intro c' hc'; simp only [StrItem.nextOK] at hc'
+      exact ⟨fun _ => Or.inr hc', fun h => by cases h⟩
+    · simp only [StrItem.render, foldBytes, hb, hB]
+      have s2 : stepByte { st with oct := [a], mode := .string1 } b (p + 1 + 1) =
+          ({ st with oct := [a, b], mode := .string1 }, []) := by
+        rw [step_hit _ b _ (Or.inl (by simp [searchClass]))]
+        simp [atHit, parseString1Hit, hi.2]
+      simp [parseString1Hit, hi.1, s2]
+  | oct3 a b c =>
+    simp only [StrItem.ok] at hi
+    simp only [depthAfter, Option.some.injEq] at hd; subst hd
+    refine ⟨{ st with oct := [a, b, c], mode := .string1 }, ⟨htp, hpar, Or.inr (Or.inl ⟨rfl, by simp, ?_, by simp [hc, StrItem.value]⟩)⟩,
+      ?_, ?_⟩
+    · intro x hx; simp at hx; rcases hx with rfl | rfl | rfl
+      · exact hi.1
+      · exact hi.2.1
+      · exact hi.2.2
+    · intro c' _
+      exact ⟨fun _ => Or.inl rfl, fun h => by cases h⟩
+    · simp only [StrItem.render, foldBytes, hb, hB]
+      have s2 : stepByte { st with oct := [a], mode := .string1 } b (p + 1 + 1) =
+          ({ st with oct := [a, b], mode := .string1 }, []) := by
+        rw [step_hit _ b _ (Or.inl (by simp [searchClass]))]
+        simp [atHit, parseString1Hit, hi.2.1]
+      have s3 : stepByte { st with oct := [a, b], mode := .string1 } c (p + 1 + 1 + 1) =
+          ({ st with oct := [a, b, c], mode := .string1 }, []) := by
+        rw [step_hit _ c _ (Or.inl (by simp [searchClass]))]
+        simp [atHit, parseString1Hit, hi.2.2]
+      simp [parseString1Hit, hi.1, s2, s3]
+  | cont e =>
+    simp only [depthAfter, Option.some.injEq] at hd; subst hd
+    cases e with
+    | lf =>
+      refine ⟨{ st with oct := [], mode := .string }, ⟨htp, hpar, Or.inl ⟨rfl, by simp [hc, StrItem.value]⟩⟩,
+        fun c' _ => nextOK_string _ _ rfl, ?_⟩
+      simp only [StrItem.render, foldBytes, hb, hB]
+      simp [parseString1Hit, o10, esc_eol_facts.1]
+    | cr =>
+      refine ⟨{ st with oct := [], mode := .string2 }, ⟨htp, hpar, Or.inr (Or.inr ⟨rfl, by simp [hc, StrItem.value]⟩)⟩,
+        ?_, ?_⟩
+      · intro c' hc'; simp only [StrItem.nextOK] at hc'
+        exact ⟨fun h => (by cases h), fun _ => hc'⟩
+      · simp only [StrItem.render, foldBytes, hb, hB]
+        simp [parseString1Hit, o13, esc_eol_facts.2]
+    | crlf =>
+      refine ⟨{ st with oct := [], mode := .string }, ⟨htp, hpar, Or.inl ⟨rfl, by simp [hc, StrItem.value]⟩⟩,
+        fun c' _ => nextOK_string _ _ rfl, ?_⟩
+      simp only [StrItem.render, foldBytes, hb, hB]
+      have s2 : stepByte { st with oct := [], mode := .string2 } 10 (p + 1 + 1) =
+          ({ st with oct := [], mode := .string }, []) := by
+        rw [step_hit _ 10 _ (Or.inl (by simp [searchClass]))]
+        simp [atHit, parseString2Hit]
+      simp [parseString1Hit, o13, esc_eol_facts.2, s2]
+  | ign c =>
+    simp only [StrItem.ok] at hi
+    simp only [depthAfter, Option.some.injEq] at hd; subst hd
+    obtain ⟨h1, h2, h3, h4⟩ := hi
+    have h3' : (c == 13) = false := by simpa using h3
+    have h4' : (c != 10) = true := by simpa using h4
+    refine ⟨{ st with oct := [], cur := st.cur ++ [c], mode := .string }, ⟨htp, hpar, Or.inl ⟨rfl, by simp [hc, StrItem.value]⟩⟩,
+      fun c' _ => nextOK_string _ _ rfl, ?_⟩
+    simp only [StrItem.render, foldBytes, hb, hB]
+    simp [parseString1Hit, h1, h2, h3', h4']
+  | popen =>
+    simp only [depthAfter, Option.some.injEq] at hd; subst hd
+    refine ⟨{ st with paren := st.paren + 1, cur := st.cur ++ [40] }, ⟨htp, by simp [hpar], Or.inl ⟨hm, by simp [hc, StrItem.value]⟩⟩,
+      fun c' _ => nextOK_string _ _ hm, ?_⟩
+    simp only [StrItem.render, foldBytes]
+    rw [step_hit st 40 p (Or.inr ⟨isEND_STRING, by simp [hm, searchClass], e40⟩)]
+    simp [atHit, hm, parseStringHit]
+  | pclose =>
+    cases depth with
+    | zero => simp [depthAfter] at hd
+    | succ k =>
+      simp only [depthAfter, Option.some.injEq] at hd; subst hd
+      have hne : (st.paren - 1 != 0) = true := by simp [hpar] <;> omega
+      refine ⟨{ st with paren := st.paren - 1, cur := st.cur ++ [41] }, ⟨htp, (by simp [hpar] <;> omega), Or.inl ⟨hm, by simp [hc, StrItem.value]⟩⟩,
+        fun c' _ => nextOK_string _ _ hm, ?_⟩
+      simp only [StrItem.render, foldBytes]
+      rw [step_hit st 41 p (Or.inr ⟨isEND_STRING, by simp [hm, searchClass], e41⟩)]
+      simp [atHit, hm, parseStringHit, hne]
+
+theorem render_ne (i : StrItem) : ∃ c tl, i.render = c :: tl := by
+  cases i with
+  | cont e => cases e <;> exact ⟨_, _, rfl⟩
+  | _ => exact ⟨_, _, rfl⟩
+
+theorem str_item_step (st : St) (v : Bytes) (depth tp p : Nat) (i : StrItem) (hp : StrPending v depth tp st)
+    (hn : NextOK st (i.render.headD 0)) (hi : i.ok) (depth' : Nat) (hd : depthAfter depth [i] = some depth') :
+    ∃ st', StrPending (v ++ i.value) depth' tp st' ∧ (∀ c, i.nextOK c → NextOK st' c) ∧
+      foldBytes st i.render p = (st', []) := by
+  obtain ⟨c0, tl, hr⟩ := render_ne i
+  rw [hr] at hn
+  obtain ⟨st1, h1, h2, h3, h4, he⟩ := strPending_settle v depth tp st c0 p hp hn
+  obtain ⟨st', hp', hn', hf⟩ := str_item_settled st1 v depth tp p i ⟨h1, h2, h3, h4⟩ hi depth' hd
+  refine ⟨st', hp', hn', ?_⟩
+  rw [hr] at hf ⊢
+  simp only [foldBytes] at hf ⊢
+  rw [he]; exact hf
+
+theorem depthAfter_cons (d : Nat) (i : StrItem) (r : List StrItem) :
+    depthAfter d (i :: r) = (depthAfter d [i]).bind (fun d1 => depthAfter d1 r) := by
+  cases i <;> cases d <;> simp [depthAfter]
+
+theorem head_render_append (i : StrItem) (rest : Bytes) (dflt : UInt8) :
+    (i.render ++ rest).headD dflt = i.render.headD 0 := by
+  obtain ⟨c, tl, h⟩ := render_ne i
+  simp [h]
+
+theorem str_items_fold : ∀ (items : List StrItem) (v : Bytes) (depth tp : Nat) (st : St) (p : Nat) (depth' : Nat),
+    StrPending v depth tp st → NextOK st ((renderStr items ++ [41]).headD 41) → (∀ i ∈ items, i.ok) →
+    chainOK items → depthAfter depth items = some depth' →
+    ∃ st', StrPending (v ++ strValue items) depth' tp st' ∧ NextOK st' 41 ∧
+      foldBytes st (renderStr items) p = (st', [])
+  | [], v, depth, tp, st, p, depth', hp, hn, _, _, hd => by
+    simp only [depthAfter, Option.some.injEq] at hd; subst hd
+    exact ⟨st, by simpa [strValue] using hp, by simpa [renderStr] using hn, by simp [renderStr, foldBytes]⟩
+  | i :: r, v, depth, tp, st, p, depth', hp, hn, hok, hch, hd => by
+    rw [depthAfter_cons] at hd
+    cases hd1 : depthAfter depth [i] with
+    | none => simp [hd1] at hd
+    | some d1 =>
+      simp only [hd1, Option.bind_some] at hd
+      have hn1 : NextOK st (i.render.headD 0) := by
+        simp only [renderStr, List.append_assoc] at hn
+        rwa [head_render_append] at hn
+      obtain ⟨st1, hp1, hnx, hf1⟩ := str_item_step st v depth tp p i hp hn1 (hok i (by simp)) d1 hd1
+      have hn2 : NextOK st1 ((renderStr r ++ [41]).headD 41) := by
+        cases r with
+        | nil => simpa [renderStr] using hnx 41 (by simpa [chainOK] using hch)
+        | cons j r' =>
+          simp only [chainOK] at hch
+          have := hnx _ hch.1
+          simp only [renderStr, List.append_assoc]
+          rw [head_render_append] at this ⊢
+          exact this
+      have hch2 : chainOK r := by
+        cases r with
+        | nil => trivial
+        | cons j r' => simp only [chainOK] at hch; exact hch.2
+      obtain ⟨st2, hp2, hn3, hf2⟩ := str_items_fold r (v ++ i.value) d1 tp st1 (p + i.render.length) depth' hp1 hn2
+        (fun j hj => hok j (by simp [hj])) hch2 hd
+      refine ⟨st2, by simpa [strValue] using hp2, hn3, ?_⟩
+      simp only [renderStr]
+      rw [foldBytes_append, hf1, hf2]
+      simp
+
+/-- At depth 0 the closing parenthesis ends the token: the string is emitted, back to the main scanner. -/
+theorem str_end (v : Bytes) (tp : Nat) (st : St) (p : Nat) (hp : StrPending v 0 tp st) (hn : NextOK st 41) :
+    ∃ st', st'.mode = .main ∧ stepByte st 41 p = (st', [(tp, Token.str v)]) := by
+  obtain ⟨st1, hm, hc, htp, hpar, he⟩ := strPending_settle v 0 tp st 41 p hp hn
+  have hf := string_byte_facts
+  simp only [Bool.and_eq_true, Bool.not_eq_true'] at hf
+  have e41 : isEND_STRING 41 = true := hf.1.1.1.1.1.1.2
+  have hz : (st1.paren - 1 != 0) = false := by simp [hpar]
+  refine ⟨{ st1 with paren := st1.paren - 1, mode := .main }, rfl, ?_⟩
+  rw [he, step_hit st1 41 p (Or.inr ⟨isEND_STRING, by simp [hm, searchClass], e41⟩)]
+  simp [atHit, hm, parseStringHit, hz, emit, hc, htp]
+
+/-- In the main scanner `(` starts a string token at the current position. -/
+theorem main_string_start (st : St) (pos : Nat) (hm : st.mode = .main) :
+    ∃ st', Settled [] 0 pos st' ∧ stepByte st 40 pos = (st', []) := by
+  have hf := string_byte_facts
+  simp only [Bool.and_eq_true, Bool.not_eq_true'] at hf
+  have n40 : isNONSPC 40 = true := hf.1.1.1.1.1.2
+  have d40 : isDigit 40 = false := by decide
+  have a40 : isAlpha 40 = false := by decide
+  refine ⟨{ st with tpos := pos, cur := [], paren := 1, mode := .string }, ⟨rfl, rfl, rfl, by simp⟩, ?_⟩
+  rw [step_hit st 40 pos (Or.inr ⟨isNONSPC, by simp [hm, searchClass], n40⟩)]
+  simp [atHit, hm, parseMainHit, d40, a40]
+
 end PdfVerif.Lexer
